@@ -209,6 +209,7 @@ pub fn c05() -> PropDef {
         check: check_c05,
         adjust: no_adjust,
         assumptions: COMMON_ASSUMPTIONS,
+        tiny: no_tiny,
     }
 }
 
@@ -428,5 +429,6 @@ pub fn c09() -> PropDef {
         check: check_c09,
         adjust: no_adjust,
         assumptions: COMMON_ASSUMPTIONS,
+        tiny: no_tiny,
     }
 }
